@@ -157,4 +157,261 @@ theorem moveLoop_spec (r : RecLen) (off : Nat) : ∀ (n i : Nat) (a : EA), Inv a
       simp only [List.append_assoc]
       rw [show I + R + O = I + O + R from by omega]
 
+/-! ### the queue operations -/
+
+/-- representation invariant of `struct elasticqueue` -/
+structure QInv (q : EQ) : Prop where
+  ea : Inv q.ea
+  sz : q.ea.size = (q.offset + q.len) * q.reclen.val
+
+theorem abs_length (q : EQ) : (EQueue.abs q).length = q.len := chunks_length _ _ _
+
+theorem add_spec (q : EQ) (rec : List UInt8) (m : Mem) (h : QInv q) (hr : rec.length = q.reclen.val)
+    (hsmall : q.ea.size + q.reclen.val ≤ EArray.SIZE_MAX) :
+    QInv (add q rec m).2.1 ∧ (add q rec m).1 ≠ .oob ∧
+    ((add q rec m).2.1.reclen = q.reclen ∧ (add q rec m).2.1.offset = q.offset) ∧
+    ((add q rec m).1 = .ok →
+      EQueue.abs (add q rec m).2.1 = EQueue.abs q ++ [rec] ∧ (add q rec m).2.1.len = q.len + 1 ∧
+      (add q rec m).2.2.refusals = m.refusals) ∧
+    ((add q rec m).1 = .fail → (add q rec m).2.1 = q ∧ (add q rec m).2.2.refusals = m.refusals + 1) ∧
+    (add q rec m).2.2.live + bufBlocks q.ea = m.live + bufBlocks (add q rec m).2.1.ea := by
+  obtain ⟨hea, hsz⟩ := h
+  have hs := append_spec q.ea rec 1 q.reclen m hea (by simp [hr])
+  simp only [Nat.one_mul] at hs
+  unfold add
+  rcases hres : append q.ea rec 1 q.reclen m with ⟨st, a', m'⟩
+  rw [hres] at hs
+  obtain ⟨hinv', hno, hok, hfail, hlive⟩ := hs
+  simp only at hinv' hno hok hfail hlive
+  cases st
+  · obtain ⟨_, hsz', _, hrf, hbytes⟩ := hok rfl
+    simp only
+    refine ⟨⟨hinv', ?_⟩, by simp, ⟨by triv, by triv⟩, fun _ => ⟨?_, by triv, hrf⟩, by simp, hlive⟩
+    · show a'.size = (q.offset + (q.len + 1)) * q.reclen.val
+      rw [hsz', hsz]; simp only [Nat.add_mul, Nat.one_mul]; omega
+    · show chunks q.reclen.val (q.len + 1) ((a'.buf.take a'.size).drop (q.offset * q.reclen.val)) = _
+      rw [hbytes, List.take_of_length_le (l := rec) (by omega)]
+      have hC : (q.ea.buf.take q.ea.size).length = q.ea.size := by
+        rw [List.length_take, hea.len]; exact Nat.min_eq_left hea.le
+      have hoff : q.offset * q.reclen.val ≤ q.ea.size := by rw [hsz, Nat.add_mul]; omega
+      rw [List.drop_append_of_le_length (by omega)]
+      exact chunks_append _ rec hr q.len _ (by rw [List.length_drop, hC, hsz, Nat.add_mul]; omega)
+  · obtain ⟨ha', hrf⟩ := hfail rfl
+    subst ha'
+    simp only
+    have hrf' : m'.refusals = m.refusals + 1 := by
+      rcases hrf with h1 | ⟨_, h2⟩
+      · exact h1
+      · omega
+    exact ⟨⟨hea, hsz⟩, by simp, ⟨by triv, by triv⟩, by simp, fun _ => ⟨by triv, hrf'⟩, hlive⟩
+  · exact absurd rfl hno
+
+theorem contents_length {a : EA} (h : Inv a) : (a.buf.take a.size).length = a.size := by
+  rw [List.length_take, h.len]; exact Nat.min_eq_left h.le
+
+theorem delete_spec (q : EQ) (m : Mem) (h : QInv q) :
+    (delete q m).1 = .ok ∧ QInv (delete q m).2.1 ∧ (delete q m).2.1.reclen = q.reclen ∧
+    EQueue.abs (delete q m).2.1 = (EQueue.abs q).tail ∧ (delete q m).2.1.len = q.len - 1 ∧
+    (delete q m).2.1.offset + (delete q m).2.1.len ≤ q.offset + q.len ∧
+    (delete q m).2.2.live + bufBlocks q.ea = m.live + bufBlocks (delete q m).2.1.ea := by
+  obtain ⟨hea, hsz⟩ := h
+  unfold delete
+  by_cases h0 : q.len = 0
+  · simp only [h0, if_true]
+    refine ⟨by triv, ⟨hea, hsz⟩, by triv, ?_, ?_, ?_, by triv⟩
+    · simp [EQueue.abs, h0, chunks]
+    · trivial
+    · exact Nat.le_refl _
+  · simp only [h0, if_false]
+    obtain ⟨n, hn⟩ : ∃ n, q.len = n + 1 := ⟨q.len - 1, by omega⟩
+    have hn' : q.len - 1 = n := by omega
+    simp only [hn']
+    have hC := contents_length hea
+    have e1 : (q.offset + 1) * q.reclen.val = q.offset * q.reclen.val + q.reclen.val := Nat.succ_mul _ _
+    have hsz' : q.ea.size = q.offset * q.reclen.val + q.reclen.val + n * q.reclen.val := by
+      rw [hsz, hn]; simp only [Nat.add_mul, Nat.one_mul]; omega
+    -- the ideal queue loses its head
+    have htail : (EQueue.abs q).tail
+        = chunks q.reclen.val n ((q.ea.buf.take q.ea.size).drop ((q.offset + 1) * q.reclen.val)) := by
+      simp only [EQueue.abs, hn, chunks, List.tail_cons, List.drop_drop, e1]
+    by_cases hmove : q.offset + 1 > n
+    · simp only [hmove, if_true]
+      obtain ⟨a1, hml, hs1, hs2, hinv1, hbuf1⟩ := moveLoop_spec q.reclen (q.offset + 1) n 0 q.ea hea (by omega)
+        (by rw [hsz, hn]; apply Nat.le_of_eq; congr 1; omega)
+      simp only [hml]
+      have hsh := shrink_spec a1 (q.offset + 1) q.reclen m hinv1
+      rcases hres : shrink a1 (q.offset + 1) q.reclen m with ⟨a2, m2⟩
+      rw [hres] at hsh
+      obtain ⟨hinv2, hsz2, hbytes2, _, hlive2⟩ := hsh
+      simp only at hinv2 hsz2 hbytes2 hlive2 ⊢
+      have hsz2' : a2.size = n * q.reclen.val := by rw [hsz2, hs1, hsz', e1]; omega
+      refine ⟨by triv, ⟨hinv2, by simp [hsz2']⟩, by triv, ?_, by triv, by (try simp); omega, ?_⟩
+      · rw [htail]
+        show chunks q.reclen.val n ((a2.buf.take a2.size).drop (0 * q.reclen.val)) = _
+        rw [Nat.zero_mul, List.drop_zero, hbytes2, hs1, hsz', e1]
+        rw [show q.offset * q.reclen.val + q.reclen.val + n * q.reclen.val - (q.offset * q.reclen.val + q.reclen.val)
+              = n * q.reclen.val from by omega]
+        rw [hbuf1]
+        simp only [Nat.zero_mul, List.take_zero, List.nil_append, Nat.zero_add]
+        rw [List.take_append_of_le_length (by rw [List.length_take, List.length_drop, hea.len]; have := hea.le; rw [e1]; omega)]
+        rw [List.take_take, Nat.min_self, chunks_take _ _ _ _ (Nat.le_refl _), List.drop_take,
+          chunks_take _ _ _ _ (by omega), e1]
+      · have : bufBlocks a1 = bufBlocks q.ea := by simp [bufBlocks, hs2]
+        rw [← this]; exact hlive2
+    · simp only [hmove, if_false]
+      refine ⟨by triv, ⟨hea, ?_⟩, by triv, ?_, by triv, by (try simp); omega, by triv⟩
+      · show q.ea.size = (q.offset + 1 + n) * q.reclen.val
+        rw [hsz, hn]; congr 1; omega
+      · rw [htail]; rfl
+
+theorem get_spec (q : EQ) (pos : Nat) (h : QInv q) :
+    (pos < q.len → EQueue.get q pos = .record (((q.ea.buf.take q.ea.size).drop (q.offset * q.reclen.val)).drop (pos * q.reclen.val) |>.take q.reclen.val)) ∧
+    (q.len ≤ pos → EQueue.get q pos = .null) := by
+  obtain ⟨hea, hsz⟩ := h
+  unfold EQueue.get
+  constructor
+  · intro hp
+    have e : (pos + q.offset) * q.reclen.val = q.offset * q.reclen.val + pos * q.reclen.val := by
+      rw [Nat.add_mul]; omega
+    have hb : (pos + q.offset) * q.reclen.val + q.reclen.val ≤ q.ea.size := by
+      have : (pos + q.offset + 1) * q.reclen.val ≤ (q.offset + q.len) * q.reclen.val :=
+        Nat.mul_le_mul_right _ (by omega)
+      rw [Nat.succ_mul] at this; omega
+    rw [if_neg (by omega), getRec_eq q.ea _ q.reclen hea hb]
+    simp only [List.drop_drop, e, List.drop_take]
+    rw [List.take_take, Nat.min_eq_left (by omega)]
+  · intro hp; rw [if_pos hp]
+
+theorem get_abs (q : EQ) (pos : Nat) (h : QInv q) :
+    (EQueue.abs q)[pos]? = match EQueue.get q pos with
+      | .record b => some b
+      | _ => none := by
+  have hg := get_spec q pos h
+  rw [EQueue.abs, chunks_getElem?]
+  by_cases hp : pos < q.len
+  · rw [hg.1 hp, if_pos hp]
+  · rw [hg.2 (by omega), if_neg hp]
+
+theorem set_spec (q : EQ) (pos : Nat) (rec : List UInt8) (h : QInv q) (hp : pos < q.len) (hr : rec.length = q.reclen.val) :
+    ∃ q', EQueue.set q pos rec = some q' ∧ QInv q' ∧ q'.reclen = q.reclen ∧ q'.len = q.len ∧ q'.offset = q.offset ∧
+      q'.ea.size = q.ea.size ∧ q'.ea.alloc = q.ea.alloc ∧
+      EQueue.abs q' = (EQueue.abs q).set pos rec := by
+  obtain ⟨hea, hsz⟩ := h
+  have e : (pos + q.offset) * q.reclen.val = q.offset * q.reclen.val + pos * q.reclen.val := by
+    rw [Nat.add_mul]; omega
+  have hlen : q.len * q.reclen.val + q.offset * q.reclen.val = q.ea.size := by rw [hsz, Nat.add_mul]; omega
+  have hpl : pos * q.reclen.val + q.reclen.val ≤ q.len * q.reclen.val := by
+    rw [← Nat.succ_mul]; exact Nat.mul_le_mul_right _ (by omega)
+  have hb : (pos + q.offset) * q.reclen.val + q.reclen.val ≤ q.ea.size := by rw [e]; omega
+  obtain ⟨a', hset, hs1, hs2, hinv', hbytes⟩ := setRec_spec q.ea (pos + q.offset) q.reclen rec hea hb hr
+  unfold EQueue.set
+  rw [if_neg (by omega), hset]
+  refine ⟨_, rfl, ⟨hinv', by simp [hs1, hsz]⟩, rfl, rfl, rfl, hs1, hs2, ?_⟩
+  show chunks q.reclen.val q.len ((a'.buf.take a'.size).drop (q.offset * q.reclen.val)) = _
+  have hC := contents_length hea
+  rw [hbytes, EQueue.abs, chunks_set _ rec hr _ _ _ hp (by rw [List.length_drop, hC]; omega)]
+  congr 1
+  simp only [setBytes, e]
+  generalize q.ea.buf.take q.ea.size = C at *
+  generalize q.offset * q.reclen.val = O at *
+  generalize pos * q.reclen.val = P at *
+  rw [List.append_assoc, List.drop_append_of_le_length (by rw [List.length_take]; omega), List.drop_take,
+    List.append_assoc, List.drop_drop]
+  rw [show O + P - O = P from by omega, show O + P + q.reclen.val = O + (P + q.reclen.val) from by omega]
+
+/-- what has to be shown about one queue step -/
+def QStepOk (q : EQ) (op : EqOp) (m : Mem) : Prop :=
+  QInv (EQueue.step q op m).2.1 ∧ (EQueue.step q op m).2.1.reclen = q.reclen ∧
+  eqAdmit (EQueue.abs q) op (EQueue.step q op m).1 = some (EQueue.abs (EQueue.step q op m).2.1) ∧
+  (EQueue.step q op m).2.1.offset + (EQueue.step q op m).2.1.len ≤ q.offset + q.len + 1
+
+theorem check_abs (q : EQ) (st : St) (m m' : Mem) (got : Option (List UInt8)) :
+    eqCheck (EQueue.abs q) (EQueue.ans st q m m' got) = some (EQueue.abs q) := by
+  simp [eqCheck, EQueue.ans, abs_length]
+
+/-- **every queue step is admitted by the ideal FIFO and `abs` commutes** -/
+theorem qstep_ok (q : EQ) (op : EqOp) (m : Mem) (h : QInv q)
+    (hc : eqContract q.reclen.val (EQueue.abs q) op)
+    (hsmall : (q.offset + q.len + 1) * q.reclen.val ≤ EArray.SIZE_MAX) : QStepOk q op m := by
+  unfold QStepOk
+  cases op with
+  | add rec =>
+    simp only [eqContract] at hc
+    have hs := add_spec q rec m h hc (by rw [h.sz]; rw [Nat.succ_mul] at hsmall; exact hsmall)
+    simp only [EQueue.step]
+    rcases hres : add q rec m with ⟨st, q', m'⟩
+    rw [hres] at hs
+    obtain ⟨hinv', hno, ⟨hrl, hoff⟩, hok, hfail, _⟩ := hs
+    simp only at hinv' hno hrl hoff hok hfail ⊢
+    refine ⟨hinv', hrl, ?_, ?_⟩
+    · simp only [eqAdmit]
+      cases st
+      · obtain ⟨habs, _, _⟩ := hok rfl
+        have : (EQueue.ans St.ok q' m m' none).st = St.ok := rfl
+        simp only [this]
+        rw [if_pos (by simp [EQueue.ans]), ← habs]
+        exact check_abs q' _ _ _ _
+      · obtain ⟨hq', hrf⟩ := hfail rfl
+        subst hq'
+        have : (EQueue.ans St.fail q' m m' none).st = St.fail := rfl
+        simp only [this]
+        rw [if_pos ⟨by simp [EQueue.ans, hrf], rfl⟩]
+        exact check_abs q' _ _ _ _
+      · exact absurd rfl hno
+    · cases st
+      · obtain ⟨_, hlen, _⟩ := hok rfl
+        omega
+      · obtain ⟨hq', _⟩ := hfail rfl
+        subst hq'; omega
+      · exact absurd rfl hno
+  | delete =>
+    have hs := delete_spec q m h
+    simp only [EQueue.step]
+    rcases hres : delete q m with ⟨st, q', m'⟩
+    rw [hres] at hs
+    obtain ⟨hst, hinv', hrl, habs, _, hle, _⟩ := hs
+    simp only at hst hinv' hrl habs hle ⊢
+    subst hst
+    refine ⟨hinv', hrl, ?_, by omega⟩
+    simp only [eqAdmit]
+    rw [if_pos ⟨rfl, rfl⟩, ← habs]
+    exact check_abs q' _ _ _ _
+  | getlen =>
+    simp only [EQueue.step]
+    refine ⟨h, by triv, ?_, by omega⟩
+    simp only [eqAdmit]
+    rw [if_pos ⟨by triv, by triv⟩]
+    exact check_abs q _ _ _ _
+  | get pos =>
+    have hg := get_abs q pos h
+    cases hget : EQueue.get q pos with
+    | null =>
+      rw [hget] at hg
+      simp only [EQueue.step, hget]
+      refine ⟨h, by triv, ?_, by omega⟩
+      simp only [eqAdmit]
+      rw [if_pos ⟨by triv, by simp [EQueue.ans, hg]⟩]
+      exact check_abs q _ _ _ _
+    | record b =>
+      rw [hget] at hg
+      simp only [EQueue.step, hget]
+      refine ⟨h, by triv, ?_, by omega⟩
+      simp only [eqAdmit]
+      rw [if_pos ⟨by triv, by simp [EQueue.ans, hg]⟩]
+      exact check_abs q _ _ _ _
+    | oob =>
+      exfalso
+      have hs := get_spec q pos h
+      by_cases hp : pos < q.len
+      · rw [hs.1 hp] at hget; cases hget
+      · rw [hs.2 (by omega)] at hget; cases hget
+  | set pos rec =>
+    simp only [eqContract, abs_length] at hc
+    obtain ⟨q', hset, hinv', hrl, hlen, hoff, _, _, habs⟩ := set_spec q pos rec h hc.1 hc.2
+    simp only [EQueue.step, hset]
+    refine ⟨hinv', hrl, ?_, by omega⟩
+    simp only [eqAdmit]
+    rw [if_pos ⟨rfl, by rw [abs_length]; exact hc.1, rfl⟩, ← habs]
+    exact check_abs q' _ _ _ _
+
 end Percival.Proofs.EQueue
